@@ -102,6 +102,15 @@ CHECKS["C16"] = dict(level="exploration", ref="6/C16",
         "after every addition; a rejected addition must leave all of it unchanged; hypotheses report base spellings (C03 monitor).",
    note=DEC_NOTE, technique=TECH + "; lock-step reference map over dictionary mutation histories")
 
+CHECKS["C09"] = dict(level="exploration", ref="6/C09",
+   text="Decoders created INSIDE the run and driven by seeded histories of public API calls from logical producer/observer/mutator tasks (grammars incl. refused ones, words, "
+        "start/feed/end in chunks, hypotheses, segment/N-best/alignment iterators finished, abandoned or freed early, lattices, JSON, CMN, retain/free, reinit), ~15% out-of-order or "
+        "degenerate calls (23 kinds), decoder_free mid-utterance, and a seeded crash point after which every reference is released. Oracle: no abnormal termination (ASan), "
+        "documented failure values, the canary utterance still decodes to the canary record on every surviving decoder (bounded liveness once misuse stops), and an allocation "
+        "ledger (sanitizer malloc/free hooks armed only while a library call is on the stack) empty after the last release, leak site taken from ASan's allocation stack.",
+   note=DEC_NOTE + " Allocation failure is not injected. decoder_process on an idle decoder may return 0 instead of the documented <0.",
+   technique=TECH + "; API-history search with misuse injection, crash points and an allocation ledger")
+
 NA = {
  "C02": "pure function of grammar, dictionary, model and frame scores: no schedule, fault, history or crash point; needs an independent max-plus reference (differential testing), another technique family",
  "C05": "pure function of one JSGF text (a compiler-correctness property): nothing to schedule or fault; language enumeration against a JSGF interpreter is the right tool",
